@@ -63,6 +63,33 @@ CHECKS = {
         design='5/C04'),
 }
 
+RENDER_NOTE = ('Trusted: Coq kernel, gen_tables.py, extraction, harness (render_lib.py tree converter, observers, gen/htmlgen.py). '
+               'Modelled not verified: html5-parser, BeautifulSoup tree surgery and serialisation, lxml serialisation of opaque elements, '
+               'difflib (re-modelled, string-hash collisions ignored); the re-parse of the emitted chunk stream by html5-parser is covered per '
+               'input by document-level observers, not by a theorem - hence partial at document level.')
+CHECKS.update({
+    'C01': dict(
+        technique='Coq proof at chunk-stream level: origin-labelled marker machine refines the executable model; conservation (every non-blank chunk of the page emitted exactly once, in order) for ANY contiguous opcode list, through tokeniser, spacer cap, customisation and marker placement + char-for-char extracted-model correspondence with _htmldiff + document-level observers (text, separation, structure; alone = all)',
+        text='Theorems (partial at document level): for all element trees, url rules, spacer caps and every contiguous opcode list, the chunk stream of the insertions (deletions) view minus marker tags equals the flattened new (old) page up to blank chunks; tokenising, the spacer cap and token customisation conserve every chunk; text chunks never contain "<" so no text becomes markup; include=all computes the same single-sided streams as include=insertions/deletions. The model (flatten, tokenise, customise, cap, comparators, difflib, merge) is tied char-for-char to _htmldiff on generated and hand-picked pairs; observers check text, word separation and block/br/img/control/script structure of each view against its page on the real html_diff_render, including pages beyond the spacer cap.',
+        note=RENDER_NOTE, design='5/C01'),
+    'C02': dict(
+        technique='Coq proof (partial): grouping of changed tokens conserves every chunk and keeps text inside closed groups; tokenising and both single-sided halves conserve their page + char-for-char extracted-model correspondence of the combined stream (reconciliation included) + document-level observer (multiset of text on each side of the combined view)',
+        text='Theorems (partial): merge_change_groups emits every chunk of a changed run exactly once in order, text only inside groups, groups closed; the labelled grouping refines the executable model; tokenising conserves both pages for every cap; for any contiguous opcodes both halves conserve their page. The reconciliation of inserted and deleted groups is modelled (Model/RenderMerge.v reconcile) and tied char-for-char to _htmldiff, its conservation is not yet a theorem: the observer decides it per input on html_diff_render (text outside del markers = new page text, outside ins markers = old page text, as multisets).',
+        note=RENDER_NOTE, design='5/C02'),
+    'C03': dict(
+        technique='Coq proof: identity (a page against itself has the single Equal opcode, zero counts and no marker in any stream) for all trees via the aligned-sequences theorem about the difflib model; counts consistency; no markers when count is 0; opcode cover + extracted-model correspondence + observers (identity on every generated page and beyond the spacer cap; detection of text differences)',
+        text='Theorems: for every element tree, rule set and cap, diffing the token list against itself yields exactly one equal block, counts (0,0,0) and marker-free streams; any two token lists that are pairwise equal under the comparator give the single Equal opcode; change_count = insertions + deletions; a side whose count is 0 carries no markers; opcodes always cover both token lists contiguously; the spacer cap never removes content. Detection (different readable text implies count > 0) is decided per input by the observer and by correspondence (partial: no theorem yet).',
+        note=RENDER_NOTE, design='5/C03'),
+    'C09': dict(
+        technique='Coq proof: html.escape output has no < > (and no quotes when asked) for all strings; every text chunk the tokeniser emits is escaped and so cannot start a tag; chunks are emitted verbatim by the marker machine; undiffable elements are one verbatim chunk + extracted-model correspondence + observer (script/style of every view are verbatim those of the inputs; deleted ones inert in a template)',
+        text='Theorems: for all strings html.escape contains neither "<" nor ">" (nor quotes with quote=True), and unescape inverts it; for all trees every word, trailing-whitespace and body-text chunk of the flattened page is escape output, so no text chunk starts a tag; the marker machine emits chunks verbatim (no re-interpretation); script/style/svg/template elements are single opaque chunks. Observer on html_diff_render: every script/style element in any view is verbatim one of the input page, deleted ones sit inside template.wm-diff-deleted-inert, the title diff meta contains no active markup, escaped payloads in text/attributes/title stay text.',
+        note=RENDER_NOTE, design='5/C09'),
+    'C15': dict(
+        technique='Coq proof: scan invariant of the marker state machine (no block-level tag chunk between an opening and closing marker) for all chunk lists and all contiguous opcodes (single-sided views), groups closed for the combined grouping; labelled machines refine the executable model + extracted-model correspondence + document-level observer (no block element inside ins/del.wm-diff in any view)',
+        text='Theorems: for every chunk list, merge_changes never leaves a block-level tag between marker open and close and ends with the marker closed; the same for the whole single-sided view under any contiguous opcode list; merge_change_groups only produces closed groups (marker opened and closed inside, no block tag inside); block names are the regenerated table. Combined-view reconciliation order is modelled and tied by correspondence, and decided per input by the observer (partial).',
+        note=RENDER_NOTE, design='5/C15'),
+})
+
 NOT_YET = {}
 
 
